@@ -164,11 +164,13 @@ fn gen_kop(r: &mut Rng, k: usize, has_rank: bool) -> KOp {
         4 => KOp::Set(r.below(k), r.base()),
         5 => KOp::SetImm(r.below(k), r.base()),
         6 | 7 => {
-            let pos = r.below(k);
-            let n = r.range(1, std::cmp::min(32, k - pos));
+            // full-word runs (32 bases) and runs starting at 0 / at the word boundary are frequent
+            let pos = if r.chance(1, 3) { *r.pick(&[0usize, k.saturating_sub(32), 32 % k, k / 2]) } else { r.below(k) };
+            let maxn = std::cmp::min(32, k - pos);
+            let n = if r.chance(1, 3) { maxn } else { r.range(1, maxn) };
             let run = r.dna(n, &[0, 1, 2, 3]);
             let junk = if r.chance(1, 3) { 0 } else { r.next() };
-            if r.chance(1, 4) {
+            if r.chance(1, 3) {
                 KOp::SetSliceImm(pos, run, junk)
             } else {
                 KOp::SetSlice(pos, run, junk)
